@@ -848,7 +848,7 @@ func (s *Service) setDefaultOwnership() {
 		if s.Contains(func(h Handler) bool {
 			return h.Get != nil || len(h.Call) > 0 || len(h.Auth) > 0 || h.New != nil
 		}) {
-			s.resetResources = []string{s.Mux.path, mergePattern(s.Mux.path, ">")}
+			s.resetResources = s.defaultOwnership()
 		} else {
 			s.resetResources = []string{}
 		}
@@ -858,11 +858,20 @@ func (s *Service) setDefaultOwnership() {
 		if s.Contains(func(h Handler) bool {
 			return h.Access != nil
 		}) {
-			s.resetAccess = []string{s.Mux.path, mergePattern(s.Mux.path, ">")}
+			s.resetAccess = s.defaultOwnership()
 		} else {
 			s.resetAccess = []string{}
 		}
 	}
+}
+
+// defaultOwnership returns the patterns owned by default: the service name and
+// everything below it, or everything if the service has no name.
+func (s *Service) defaultOwnership() []string {
+	if s.Mux.path == "" {
+		return []string{">"}
+	}
+	return []string{s.Mux.path, mergePattern(s.Mux.path, ">")}
 }
 
 // subscribe makes a nats subscription for each required request type, based on
